@@ -81,4 +81,14 @@ SearchBack(f, l, c) == IF <<l, c>> \in DOMAIN f THEN [ok |-> TRUE, p |-> f[<<l, 
                        ELSE SearchBack(f, l, c - 1)
 SourceFromTarget(f, l, c) == IF ~HasLine(f, l) THEN [ok |-> FALSE, p |-> Pos(0, 0, 0)] ELSE SearchBack(f, l, c)
 
+-----------------------------------------------------------------------------
+(* parser/v2/sourcemap.go: AddSymbolRange / SymbolTargetRangeFromSource.  The table is a map of
+   per-line maps keyed by the column: <<line, col>> -> range.  SymLineMap = "recreate" transcribes
+       sm.SourceSymbolRangeToTarget[src.From.Line] = make(map[uint32]Range)
+   executed on EVERY call: a second declaration starting on the same templ line drops the first
+   one's entry.  "keep" creates the per-line map only when the line has none.                  *)
+CONSTANT SymLineMap
+DropLine(f, l) == [k \in {x \in DOMAIN f : x[1] # l} |-> f[k]]
+AddSym(f, l, c, r) == (<<l, c>> :> r) @@ (IF SymLineMap = "recreate" THEN DropLine(f, l) ELSE f)
+SymFound(f, l, c) == <<l, c>> \in DOMAIN f
 =============================================================================
